@@ -251,6 +251,8 @@ def doc_xml(doc):
 def write_fileset(rng, root, tag, seedling):
     """files of one set under root/<tag>/ ; returns {key: relative path} and the recipe (for replay)"""
     import neuroml as n
+    import neuroml.loaders  # noqa: F401  (nml.py's exportHdf5 uses neuroml.utils without importing it)
+    import neuroml.utils  # noqa: F401
     import neuroml.writers as W
     d = os.path.join(root, tag)
     os.makedirs(os.path.join(d, "sub"), exist_ok=True)
@@ -825,6 +827,8 @@ def declared_ids(calls):
 
 def interleave_case(ctx, case):
     """case = {"seedA","seedB","kinds":[kA,kB],"scheds":[..]} -> real vs solo, model vs real"""
+    import neuroml.loaders  # noqa: F401
+    import neuroml.utils  # noqa: F401
     import neuroml.writers as W
     root = tempfile.mkdtemp(prefix="verif_c07i_")
     try:
